@@ -325,11 +325,25 @@ def tableau_readback(F, R):
     R.fn(f["path"])
     dropped = set()
     stripped = set()
-    for n in walk(f["body"]):
-        if n.get("k") == "MCall" and n["name"] == "strip_prefix":
-            a = strip(n["args"][0])
-            if a.get("k") == "Lit":
-                stripped.add(a["v"])
+
+    def strip_prefix_literals(g, depth=2, seen=None):
+        """`$..` literals that the function (or a same-file helper it calls) peels off with strip_prefix: the halves of
+        a split variable, which are recombined rather than dropped"""
+        seen = seen if seen is not None else set()
+        if g is None or "body" not in g or g["path"] in seen:
+            return
+        seen.add(g["path"])
+        for n in walk(g["body"]):
+            if n.get("k") == "MCall" and n["name"] == "strip_prefix":
+                a = strip(n["args"][0])
+                if a.get("k") == "Lit":
+                    stripped.add(a["v"])
+            if depth > 0 and n.get("k") in ("Call", "MCall"):
+                c = n.get("resolved") or n.get("callee")
+                tgt = F.fns.get(c) if c else None
+                if tgt is not None and tgt.get("file") == g.get("file"):
+                    strip_prefix_literals(tgt, depth - 1, seen)
+    strip_prefix_literals(f)
     # every other `$..` literal the function reaches is a prefix it tests for (directly, through a list of prefixes, a
     # constant or a helper)
     dropped = {v for v in dollar_literals(F, f) if v not in stripped}
@@ -408,5 +422,8 @@ def h_positional(F, R):
             n += 1
             joined = " <- ".join(texts)
             ok = re.search(r"\bvariables\(\)|\bvariables\b", joined) is not None
-            R.ob("H-POSITIONAL", "%s:%s" % (f["path"], cal.rsplit("::", 1)[-1]), ok, F.loc(f, c), "the value vector `%s` must be built in the model's variable order; its definition chain is: %s" % (sexp(arg)[:60], joined[:300]))
+            # the rule recognises a vector that is visibly built from the model's variable list; a chain that goes through
+            # another function or another spelling is not evidence of a wrong order (BRIDGE-EQUIV / SIMPLEX-EQUIV recompute
+            # objective and row activities from the returned point and decide)
+            R.ob("H-POSITIONAL", "%s:%s" % (f["path"], cal.rsplit("::", 1)[-1]), ok, F.loc(f, c), "the value vector `%s` is not visibly built in the model's variable order (not analysable by this rule); its definition chain is: %s" % (sexp(arg)[:60], joined[:300]), undecided=True)
     R.ob("H-POSITIONAL", "sites", n >= 4, "", "expected at least 4 positional evaluation sites, found %d" % n, undecided=True)
